@@ -77,6 +77,8 @@ def run(ctx):
                         site = inner.read.site
                 ctx.ob('R-ALIAS', not hz, key, site, msg, cfg=cfg,
                        sample=dict(config=cfg, function=f['qn'], pattern=alias.fmt_pattern(f, p)) if p else None)
+        if an.unresolved:
+            raise bm.AnalysisBroken('R-ALIAS: %s' % '; '.join(sorted(set(an.unresolved))[:3]))
         ctx.count('entry_functions[%s]' % cfg, nent)
         ctx.count('patterns[%s]' % cfg, npat)
         ctx.count('callee_queries[%s]' % cfg, an.queries)
